@@ -5,6 +5,9 @@
 package jsstr
 
 import (
+	"fmt"
+	"math"
+	"strconv"
 	"strings"
 	"unicode/utf8"
 )
@@ -31,11 +34,22 @@ func appendCP(out []uint16, cp int) []uint16 {
 
 // Decode returns the UTF-16 code units denoted by a (sloppy-mode) string literal body; ok=false if the body is not a
 // well-formed body (incomplete \x / \u escape, code point above 10FFFF, raw line terminator LF/CR).
-func Decode(body string) (out []uint16, ok bool) {
+func Decode(body string) (out []uint16, ok bool) { return decode(body, false) }
+
+// decode with template=true accepts raw line terminators (CR LF and CR count as LF), as in a backtick body.
+func decode(body string, template bool) (out []uint16, ok bool) {
 	for i := 0; i < len(body); {
 		c := body[i]
 		if c == '\n' || c == '\r' {
-			return nil, false
+			if !template {
+				return nil, false
+			}
+			if c == '\r' && i+1 < len(body) && body[i+1] == '\n' {
+				i++
+			}
+			out = append(out, 0x0A)
+			i++
+			continue
 		}
 		if c != '\\' {
 			r, n := utf8.DecodeRuneInString(body[i:])
@@ -150,4 +164,45 @@ func Meaning(body string) string {
 		return "\"" + Show(u) + "\""
 	}
 	return "!raw:" + body
+}
+
+// NumMeaning is the canonical form of a numeric literal of the subset (decimal, fraction, exponent, 0x, 0b, 0o): the
+// IEEE-754 bit pattern of its value. Literals that this decoder does not understand are returned as written.
+func NumMeaning(raw string) string {
+	s := raw
+	var v float64
+	switch {
+	case len(s) > 2 && s[0] == '0' && (s[1] == 'x' || s[1] == 'X' || s[1] == 'b' || s[1] == 'B' || s[1] == 'o' || s[1] == 'O'):
+		base := map[byte]int{'x': 16, 'X': 16, 'b': 2, 'B': 2, 'o': 8, 'O': 8}[s[1]]
+		u, err := strconv.ParseUint(s[2:], base, 64)
+		if err != nil || u > 1<<53 {
+			return "!raw:" + raw
+		}
+		v = float64(u)
+	default:
+		for i := 0; i < len(s); i++ {
+			c := s[i]
+			if !(c >= '0' && c <= '9') && c != '.' && c != 'e' && c != 'E' && c != '+' && c != '-' {
+				return "!raw:" + raw
+			}
+		}
+		if len(s) > 1 && s[0] == '0' && s[1] >= '0' && s[1] <= '9' {
+			return "!raw:" + raw // legacy octal-like: not part of the subset
+		}
+		f, err := strconv.ParseFloat(s, 64)
+		if err != nil && !math.IsInf(f, 0) {
+			return "!raw:" + raw
+		}
+		v = f
+	}
+	return fmt.Sprintf("f64:%016x", math.Float64bits(v))
+}
+
+// TplMeaning is the cooked value of a backtick body without substitutions (CR LF and CR count as LF; no octal
+// escapes); bodies it cannot decode are returned as raw text with line endings normalised.
+func TplMeaning(body string) string {
+	if u, ok := decode(body, true); ok {
+		return "\"" + Show(u) + "\""
+	}
+	return "!raw:" + strings.ReplaceAll(strings.ReplaceAll(body, "\r\n", "\n"), "\r", "\n")
 }
